@@ -50,6 +50,20 @@ func finish(eng *Engine, ev *Evidence, prop, tier string, seed int, results []*H
 	replayDir := filepath.Join(verifRoot, "replays", prop)
 	os.RemoveAll(replayDir)
 
+	// lock discipline: an unprotected read counts only if some traced operation writes that location
+	written := map[string]bool{}
+	for _, res := range results {
+		for k := range res.Written {
+			written[k] = true
+		}
+	}
+	for _, res := range results {
+		for k, vs := range res.Violations {
+			if strings.HasPrefix(k, "read-without-lock:") && len(vs) > 0 && !written[vs[0].Tag] {
+				delete(res.Violations, k)
+			}
+		}
+	}
 	for _, res := range results {
 		h := res.Spec
 		states += res.Paths
